@@ -73,14 +73,20 @@ Theorem C10_exp_spec_repr_independent :
   field_map2 (gvecs 2 A B g) (exp_spec2 floorK A g scale k (repr K nx ny g A f)) = exp_spec2 floorK B g scale k (repr K nx ny g B f).
 Proof. intros nx ny g Hx Hy Hw H0 H1. exact (exp_spec2_repr_independent K Kf Kc floorK nx ny Hx Hy g Hw H0 H1). Qed.
 
-(* 5. FlowFields.exp AS CODED: equals the specification when the field is already in a cube representation ... *)
-Theorem C10_exp_code_partial :
+(* 5. FlowFields.exp AS CODED (flow = self.axes(cube); data = flow.tensor(); expv; back to the original axes) is the
+      specification for ALL FOUR axes and every field, hence independent of the representation *)
+Theorem C10_exp_code_is_spec :
+  forall (g : @gridf K) A scale k u2 u3,
+  exp_code2 floorK A g scale k u2 = exp_spec2 floorK A g scale k u2 /\
+  exp_code3 floorK A g scale k u3 = exp_spec3 floorK A g scale k u3.
+Proof. intros. split; reflexivity. Qed.
+Theorem C10_exp_repr_independent :
   forall (nx ny : Z) (g : @gridf K), (2 <= nx)%Z -> (2 <= ny)%Z -> gwf 2 g ->
   fst (fst (fst g)) 0%nat = of_Z nx -> fst (fst (fst g)) 1%nat = of_Z ny ->
-  forall ac scale k f,
-  exp_code2 floorK (cube_of ac) g scale k (repr K nx ny g (cube_of ac) f)
-  = exp_spec2 floorK (cube_of ac) g scale k (repr K nx ny g (cube_of ac) f).
-Proof. intros nx ny g Hx Hy Hw. intros _ _. exact (exp_code2_partial K Kf Kc floorK nx ny Hx Hy g Hw). Qed.
+  forall A B scale k f,
+  field_map2 (gvecs 2 A B g) (exp_code2 floorK A g scale k (repr K nx ny g A f)) = exp_code2 floorK B g scale k (repr K nx ny g B f).
+Proof. intros nx ny g Hx Hy Hw H0 H1. exact (exp_code2_repr_independent K Kf Kc floorK nx ny Hx Hy g Hw H0 H1). Qed.
+
 (* 6. the same in three dimensions (compose / expv convention independence, exp as specified representation independent,
       exp as coded = specification for cube axes) *)
 Theorem C10_compose_convention_independent_3d :
@@ -99,12 +105,18 @@ Theorem C10_exp_spec_repr_independent_3d :
   forall A B scale k f,
   field_map3 (gvecs 3 A B g) (exp_spec3 floorK A g scale k (repr3 K nx ny nz g A f)) = exp_spec3 floorK B g scale k (repr3 K nx ny nz g B f).
 Proof. exact (exp_spec3_repr_independent K Kf Kc floorK). Qed.
-Theorem C10_exp_code_partial_3d :
+Theorem C10_warp_repr_independent_3d :
   forall (nx ny nz : Z), (2 <= nx)%Z -> (2 <= ny)%Z -> (2 <= nz)%Z -> forall (g : @gridf K), gwf 3 g ->
-  forall ac scale k f,
-  exp_code3 floorK (cube_of ac) g scale k (repr3 K nx ny nz g (cube_of ac) f)
-  = exp_spec3 floorK (cube_of ac) g scale k (repr3 K nx ny nz g (cube_of ac) f).
-Proof. exact (exp_code3_partial K Kf Kc floorK). Qed.
+  fst (fst (fst g)) 0%nat = of_Z nx -> fst (fst (fst g)) 1%nat = of_Z ny -> fst (fst (fst g)) 2%nat = of_Z nz ->
+  forall pad A B img f, zlen img = nz -> zlen (hd [] img) = ny -> zlen (hd [] (hd [] img)) = nx ->
+  warp3 floorK pad A g img (repr3 K nx ny nz g A f) = warp3 floorK pad B g img (repr3 K nx ny nz g B f).
+Proof. exact (warp3_repr_independent K Kf Kc floorK). Qed.
+Theorem C10_exp_repr_independent_3d :
+  forall (nx ny nz : Z), (2 <= nx)%Z -> (2 <= ny)%Z -> (2 <= nz)%Z -> forall (g : @gridf K), gwf 3 g ->
+  fst (fst (fst g)) 0%nat = of_Z nx -> fst (fst (fst g)) 1%nat = of_Z ny -> fst (fst (fst g)) 2%nat = of_Z nz ->
+  forall A B scale k f,
+  field_map3 (gvecs 3 A B g) (exp_code3 floorK A g scale k (repr3 K nx ny nz g A f)) = exp_code3 floorK B g scale k (repr3 K nx ny nz g B f).
+Proof. exact (exp_code3_repr_independent K Kf Kc floorK). Qed.
 End Statements.
 
 Print Assumptions C10_axes_roundtrip.
@@ -115,24 +127,25 @@ Print Assumptions C10_compose_convention_independent.
 Print Assumptions C10_expv_convention_independent.
 Print Assumptions C10_warp_repr_independent.
 Print Assumptions C10_exp_spec_repr_independent.
-Print Assumptions C10_exp_code_partial.
+Print Assumptions C10_exp_code_is_spec.
+Print Assumptions C10_exp_repr_independent.
 Print Assumptions C10_compose_convention_independent_3d.
 Print Assumptions C10_expv_convention_independent_3d.
 Print Assumptions C10_exp_spec_repr_independent_3d.
-Print Assumptions C10_exp_code_partial_3d.
+Print Assumptions C10_exp_repr_independent_3d.
+Print Assumptions C10_warp_repr_independent_3d.
 
-(* ... FULL statement (does NOT hold for the unchanged code, DESIGN section 5 #6): exp_code2 = exp_spec2 for every axes.
-   FlowFields.exp computes `flow = self.axes(cube)` but then exponentiates `self.tensor()`, the UNCONVERTED vectors.
-   Witness: WORLD axes on a 3 x 2 anisotropic rotated grid.  Delete once data/flow.py uses flow.tensor(). *)
+(* regression witness: the variant that exponentiates the UNCONVERTED tensor (the defect repaired in /repo 245f8d5) is
+   told apart from the specification -- WORLD axes on a 3 x 2 anisotropic rotated grid *)
 Definition wg : @gridf QcF :=
   (fun i => nth i [q 3 1; q 2 1] (q 1 1), fun i => nth i [q 1 2; q 2 1] (q 1 1), fun i => nth i [q 10 1; q (-3) 1] (q 0 1),
    fun i j => nth j (nth i [[q 3 5; q (-4) 5]; [q 4 5; q 3 5]] []) (q 0 1)).
 Definition wu : list (list (list Qc)) :=
   [[[q 1 8; q (-1) 8; q 1 16]; [q 0 1; q 1 8; q 1 4]]; [[q 1 4; q 0 1; q (-1) 8]; [q 1 16; q 1 8; q 0 1]]].
-Theorem C10_exp_code_refuted :
-  feqb2 (exp_code2 (K:=QcF) floorQ WORLD wg (q 1 1) 2 wu) (exp_spec2 (K:=QcF) floorQ WORLD wg (q 1 1) 2 wu) = false.
+Theorem C10_exp_unconverted_differs :
+  feqb2 (exp_unconverted2 (K:=QcF) floorQ WORLD wg (q 1 1) 2 wu) (exp_code2 (K:=QcF) floorQ WORLD wg (q 1 1) 2 wu) = false.
 Proof. vm_compute. reflexivity. Qed.
-Print Assumptions C10_exp_code_refuted.
+Print Assumptions C10_exp_unconverted_differs.
 
 (* non-vacuity: the witness grid is well-formed (rotated, anisotropic), the conversions are not trivial, and a round trip
    through WORLD on it computes to the identity *)
